@@ -192,7 +192,7 @@ static void randomScenario(uint64_t seed, int nops, int scenario, unsigned kinds
 #endif
 		for (int n = 0; n < nops; ++n) {
 			Op o = randomOp(rng, g_inst[0], false);
-			if (o.op == "load" || o.op == "rt" || o.op == "re" || o.op == "copy") continue;
+			if (o.op == "load" || o.op == "rt" || o.op == "re" || o.op == "copy" || o.op == "move") continue;
 			const bool wasActive = g_inst[0]->active();
 			g_prov.recorded.clear();
 			if (!runOn(0, o, PM_RANDOM)) continue;
@@ -223,7 +223,7 @@ static void randomScenario(uint64_t seed, int nops, int scenario, unsigned kinds
 		const int copyAt2 = nops > 8 ? 2 + rng.below(nops - 3) : -1;
 		for (int n = 0; n < nops; ++n) {
 			if ((n == copyAt || n == copyAt2) && live < MAX_INST) {
-				Op cp; cp.op = "copy"; cp.a = rng.below(live);
+				Op cp; cp.op = rng.chance(40) ? "move" : "copy"; cp.a = rng.below(live);
 				runOn(live, cp, PM_NONE);
 				nolog[live] = nolog[cp.a];
 				++live;
